@@ -43,10 +43,10 @@ FULL = geometry.SymmetryType(geometry.DomainType.FULL_CORE, geometry.BoundaryTyp
 #  edge_halves_need_ring3_edge: 5 rings, cells (0,0),(1,0),(4,-2); addEdgeAssemblies(core) -> both halves keep
 #    symmetry factor 1 (HexBlock.getSymmetryFactor looks for an edge assembly only at cell (-1,2)), core mass
 #    1913 g -> 2733 g.
-KNOWN_DEFECT_restore_without_centre = True
-KNOWN_DEFECT_convert_drops_edge_assemblies = True
-KNOWN_DEFECT_centre_not_scaled_after_noop_addEdge = True
-KNOWN_DEFECT_edge_halves_need_ring3_edge = True
+KNOWN_DEFECT_restore_without_centre = False  # repaired in /repo (fix: 0c76163)
+KNOWN_DEFECT_convert_drops_edge_assemblies = False  # recorded in known_findings.jsonl
+KNOWN_DEFECT_centre_not_scaled_after_noop_addEdge = False  # recorded in known_findings.jsonl
+KNOWN_DEFECT_edge_halves_need_ring3_edge = False  # recorded in known_findings.jsonl
 
 LAYOUTS = {
     "c+3": [(0, 0), (1, 0), (2, -1), (1, 1)],          # centre, ring 2, 0-degree line, interior of ring 3
